@@ -40,7 +40,9 @@ class PlotWorld(object):
         law.wav = np.array([0.3, 0.55, 1.0, 3.0, 10.0, 30.0]) * u.micron
         law.chi = np.array([9.0, 5.0, 2.0, 0.7, 0.3, 0.1]) * u.cm ** 2 / u.g
         self.law = law
-        self.filters = [WAV[i] * u.micron for i in FILT_W]
+        self.order = rng.sample(range(3), 3)          # the filters are listed in a seed-chosen order, not by wavelength
+        self.filt_w = [FILT_W[i] for i in self.order]
+        self.filters = [WAV[i] * u.micron for i in self.filt_w]
         with fw.quiet():
             from sedfitter.fit import Fitter
             self.fitter = Fitter(self.filters, np.array(aps_arcsec, dtype=float) * u.arcsec, self.dir, extinction_law=law, av_range=(0.0, 4.0),
@@ -70,9 +72,9 @@ def replay_chunk(items, root, seed):
             s.y = 0.0
             s.valid = np.array([1, 1, 1])
             m0 = rng.randrange(NM)
-            s.flux = np.array([val(m0, 1, i) * rng.uniform(0.6, 1.5) * 0.2 for i in FILT_W])
+            s.flux = np.array([val(m0, 1, i) * rng.uniform(0.6, 1.5) * 0.2 for i in w.filt_w])
             s.error = 0.1 * s.flux
-            desc = {'behaviour': b, 'wavelengths_um': [WAV[i] for i in FILT_W]}
+            desc = {'behaviour': b, 'wavelengths_um': [WAV[i] for i in w.filt_w]}
             try:
                 info = w.fitter.fit(s)
                 pred = np.array(info.model_fluxes)[:st['nsel']]
@@ -104,7 +106,7 @@ def replay_chunk(items, root, seed):
             for ci, cv in enumerate(curves):
                 seg = np.asarray(segs[ci])
                 r = cv['rank'] - 1
-                for f, fw_i in enumerate(FILT_W):
+                for f, fw_i in enumerate(w.filt_w):
                     shown_for_f = (cv['ap'] == 0) or (cv['ap'] == st['aps'][f]) or (not st['multi'])
                     if not shown_for_f:
                         continue
